@@ -1,11 +1,25 @@
-/-! # C08 — model of `esl_abc_GuessAlphabet` (core Lean; `Float` mirrors the C `double` comparisons) -/
+/-! # C08 — model of `esl_abc_GuessAlphabet` and of the counting loop of `esl_sq_GuessAlphabet` (core Lean).
+
+Two versions of the classifier: `guessAlphabet` mirrors the C `double` comparisons `d <= 0.02*n` with `Float`;
+`guessZ` writes them `50*d ≤ n` over the integers (what the theorems are about). The driver runs both on every
+input and reports a split, so the run ties `guessZ` to the code as well (the two tests agree for |n|, |d| < 2^40:
+0.02 as a binary64 is 0.02(1 + 2·10⁻¹⁷), `n/50` is representable whenever it is an integer, and rounding is monotone). -/
 namespace EaselModel.Alphabet.Guess
+
+/-- `x = ct[…]` with `int x` and `int64_t ct[]`: conversion to a 32-bit `int` -/
+def wrap32 (v : Int) : Int := (v + 2147483648) % 4294967296 - 2147483648
 
 /-- sum and number of distinct letters with a positive count among `letters` (given as indices 0..25) -/
 def tally (ct : List Int) (letters : List Nat) : Int × Nat :=
-  letters.foldl (fun (acc : Int × Nat) l => let x := ct.getD l 0; if x > 0 then (acc.1 + x, acc.2 + 1) else acc) (0, 0)
+  letters.foldl (fun (acc : Int × Nat) l => let x := wrap32 (ct.getD l 0); if x > 0 then (acc.1 + x, acc.2 + 1) else acc) (0, 0)
 
 def idx (s : String) : List Nat := s.toList.map fun c => c.toNat - 65
+
+def aaonly : List Nat := [4, 5, 8, 9, 11, 14, 15, 16, 25]        -- "EFIJLOPQZ"
+def allcanon : List Nat := [0, 2, 6]                             -- "ACG"
+def aacanon : List Nat := [3, 7, 10, 12, 17, 18, 21, 22, 24]     -- "DHKMRSVWY"
+
+def total (ct : List Int) : Int := (List.range 26).foldl (fun acc i => acc + ct.getD i 0) 0
 
 /-- `esl_abc_GuessAlphabet(ct, &type)`: returns (eslOK?, type) with type 0 = unknown, 1 = RNA, 2 = DNA, 3 = amino -/
 def guessAlphabet (ct : List Int) : Bool × Nat :=
@@ -27,5 +41,42 @@ def guessAlphabet (ct : List Int) : Bool × Nat :=
     else if Float.ofInt (n - (n1 + n2 + n3 + nn + nt + nx)) ≤ thr ∧ n3 > n2 ∧ x1 + x2 + x3 + xn + xt ≥ 15 then 3
     else 0
   (type ≠ 0, type)
+
+/-- the classifier with the 2 % tests over the integers -/
+def guessZ (ct : List Int) : Nat :=
+  let n : Int := total ct
+  let t1 := tally ct aaonly
+  let t2 := tally ct allcanon
+  let t3 := tally ct aacanon
+  let nt := ct.getD 19 0; let xt : Nat := if nt ≠ 0 then 1 else 0
+  let nu := ct.getD 20 0; let xu : Nat := if nu ≠ 0 then 1 else 0
+  let nx := ct.getD 23 0
+  let nn := ct.getD 13 0; let xn : Nat := if nn ≠ 0 then 1 else 0
+  if n ≤ 10 then 0
+  else if n > 2000 ∧ nn = n then 2
+  else if t1.1 > 0 then 3
+  else if 50 * (n - (t2.1 + nt + nn)) ≤ n ∧ t2.2 + xt = 4 then 2
+  else if 50 * (n - (t2.1 + nu + nn)) ≤ n ∧ t2.2 + xu = 4 then 1
+  else if 50 * (n - (t1.1 + t2.1 + t3.1 + nn + nt + nx)) ≤ n ∧ t3.1 > t2.1 ∧ t1.2 + t2.2 + t3.2 + xn + xt ≥ 15 then 3
+  else 0
+
+/-- `toupper(sq->seq[i]) - 'A'` for a (signed) `char`: a byte ≥ 0x80 is negative and stays so; result as an integer -/
+def letterIdx (c : Nat) : Int :=
+  if c ≥ 128 then (c : Int) - 256 - 65
+  else if 97 ≤ c ∧ c ≤ 122 then (c : Int) - 32 - 65 else (c : Int) - 65
+
+/-- the counting loop of `esl_sq_GuessAlphabet`: `ct[x]++; n++; if (n > 10000) break;` -/
+def sqCount : List Nat → List Int → Nat → List Int
+  | [], ct, _ => ct
+  | c :: cs, ct, n =>
+    let x := letterIdx c
+    if x < 0 ∨ x ≥ 26 then sqCount cs ct n
+    else
+      let ct' := ct.set x.toNat (ct.getD x.toNat 0 + 1)
+      if n + 1 > 10000 then ct' else sqCount cs ct' (n + 1)
+
+/-- `esl_sq_GuessAlphabet(sq, &type)` on a text-mode sequence -/
+def sqGuess (seq : List Nat) : Bool × Nat := guessAlphabet (sqCount seq (List.replicate 26 0) 0)
+def sqGuessZ (seq : List Nat) : Nat := guessZ (sqCount seq (List.replicate 26 0) 0)
 
 end EaselModel.Alphabet.Guess
